@@ -491,6 +491,7 @@ func runStreams(c *Ctx, prop string) {
 	}
 	if prop == "C06" {
 		c06Inflated(c)
+		c06GzipOverlap(c, sfx)
 		c06Proxy(c)
 		c17Mux(c, "C06") // HttpBody uploads against small chunk sizes: every chunk, in order, nothing lost at the end
 	}
@@ -1169,6 +1170,101 @@ func c06Proxy(c *Ctx) {
 			if !ok {
 				c.SpecFail("proxy-sequence", in, out.String()+fmt.Sprint(" hung=", out.hung), fmt.Sprintf("%d replies r0.. in order, then %v", replies, code), "C06/proxy/SS/sequence", "the client of a proxied server stream does not get the backend's reply sequence followed by its final status")
 			}
+		}
+	}
+}
+
+// hookReader delivers data[:cut], then runs hook once (from inside the next Read), then the rest.
+type hookReader struct {
+	data []byte
+	cut  int
+	hook func()
+	pos  int
+	ran  bool
+}
+
+func (r *hookReader) Read(p []byte) (int, error) {
+	if r.pos >= r.cut && !r.ran {
+		r.ran = true
+		r.hook()
+	}
+	if r.pos >= len(r.data) {
+		return 0, io.EOF
+	}
+	end := len(r.data)
+	if r.pos < r.cut {
+		end = r.cut
+	}
+	n := copy(p, r.data[r.pos:end])
+	r.pos += n
+	return n, nil
+}
+
+// c06GzipOverlap: compressed HTTP client streams one after another and INSIDE one another (call C
+// is served while call B is in the middle of its body): every call delivers its own messages.
+func c06GzipOverlap(c *Ctx, sfx *streamFx) {
+	fx := sfx.fx
+	mk := func(tag byte, n int) ([]byte, [][]byte) {
+		var wire []byte
+		var datas [][]byte
+		for k := 0; k < n; k++ {
+			d := append([]byte{tag, byte(k)}, bytes.Repeat([]byte{tag}, 20+k)...)
+			enc := encodeMsg(fx, "proto", d)
+			wire = protowire.AppendVarint(wire, uint64(len(enc)))
+			wire = append(wire, enc...)
+			datas = append(datas, d)
+		}
+		return gzipBytes(wire), datas
+	}
+	serve := func(body io.Reader) (*httptest.ResponseRecorder, interface{}) {
+		r := httptest.NewRequest("POST", "/c06/up", bodyReadCloser{body})
+		r.ContentLength = -1
+		r.Header.Set("Content-Type", "application/protobuf")
+		r.Header.Set("Content-Encoding", "gzip")
+		return fx.Serve(r)
+	}
+	for round := 0; round < 3; round++ {
+		sfx.reset(nil)
+		za, da := mk('A', 5)
+		recA, pnA := serve(bytes.NewReader(za))
+		zb, db := mk('B', 40)
+		zc, dc := mk('C', 7)
+		var recC *httptest.ResponseRecorder
+		var pnC interface{}
+		recB, pnB := serve(&hookReader{data: zb, cut: len(zb) / 2, hook: func() { recC, pnC = serve(bytes.NewReader(zc)) }})
+		in := fmt.Sprintf("gzip HTTP client streams: A (5 messages) completes, then C (7) is served while B (40) is mid-body; round %d", round)
+		c.Eval("http-gzip-overlap", in, true)
+		sfx.mu.Lock()
+		got := append([][]byte(nil), sfx.got...)
+		sfx.mu.Unlock()
+		per := map[byte][][]byte{}
+		for _, g := range got {
+			if len(g) > 0 {
+				per[g[0]] = append(per[g[0]], g)
+			}
+		}
+		same := func(a, b [][]byte) bool {
+			if len(a) != len(b) {
+				return false
+			}
+			for i := range a {
+				if !bytes.Equal(a[i], b[i]) {
+					return false
+				}
+			}
+			return true
+		}
+		okA := pnA == nil && recA.Code == 200 && same(per['A'], da)
+		okB := pnB == nil && recB.Code == 200 && same(per['B'], db)
+		okC := pnC == nil && recC != nil && recC.Code == 200 && same(per['C'], dc)
+		if !okA || !okB || !okC {
+			code := func(r *httptest.ResponseRecorder) int {
+				if r == nil {
+					return 0
+				}
+				return r.Code
+			}
+			c.SpecFail("http-gzip-overlap", in, fmt.Sprintf("A: %d, %d of 5; B: %d, %d of 40; C: %d, %d of 7", code(recA), len(per['A']), code(recB), len(per['B']), code(recC), len(per['C'])), "every call delivers its own messages, 200", "C06/http-gzip/overlapping-streams", "compressed request streams that overlap in time cut or contaminate one another")
 		}
 	}
 }
